@@ -117,14 +117,39 @@ impl World {
             let steps = chosen_steps(&info[a].sites, thorough && info[a].steps < 400);
             let mut bs: Vec<usize> = reps.clone();
             // the same module under its other option sets / comments modes
+            // (the hand-picked option sets only; the covering-array sets c00.. are exercised by the seeded search)
             for &i in &pool {
-                // (the hand-picked option sets only; the covering-array sets c00.. are exercised by the seeded search)
                 if tasks[i].name == tasks[a].name && i != a && !bs.contains(&i) && !tasks[i].opt_name.starts_with('c') {
                     bs.push(i);
                 }
             }
             for &b in &bs {
                 for &k in &steps {
+                    preempt_list.push((a, b, k));
+                }
+            }
+        }
+        // per site, the module that hits it most often ("heavy"): state that needs two or more uses of a
+        // site by one task before it shows (a second generated position, a second temporary, ...) is not
+        // reached by the smallest representative. Heavy A against {heavy, smallest} B of the same site, and
+        // smallest A against heavy B.
+        let mut seen_pairs: BTreeSet<(usize, usize)> = BTreeSet::new();
+        for (site, v) in &by_site {
+            if site.starts_with("phase.") {
+                continue;
+            }
+            let count = |i: usize| info[i].sites.iter().filter(|s| *s == site).count();
+            let cands: Vec<usize> = v.iter().copied().filter(|i| tasks[*i].comments && !tasks[*i].opt_name.starts_with('c') && info[*i].steps < 600).collect();
+            let Some(&heavy) = cands.iter().max_by_key(|i| (count(**i), std::cmp::Reverse(**i))) else { continue };
+            let Some(&small) = cands.first() else { continue };
+            if count(heavy) < 2 {
+                continue;
+            }
+            for (a, b) in [(heavy, heavy), (heavy, small), (small, heavy)] {
+                if reps.contains(&a) && reps.contains(&b) || !seen_pairs.insert((a, b)) {
+                    continue;
+                }
+                for k in chosen_steps(&info[a].sites, false) {
                     preempt_list.push((a, b, k));
                 }
             }
